@@ -160,11 +160,12 @@ impl Property for C07 {
         "C07"
     }
     fn rule(&self) -> String {
-        "modules decoded from proptest choice bytes by gen::grammar (statements, classes, functions, TS declarations, JSX incl. the legal-but-unusual forms) under random option sets; judged cases = parser-accepted, no visitor panic; passing requires diagnostics>=1 OR (JSX census of raw output AST = 0 AND no empty-symbol identifier AND printed output re-parses with JSX disabled). non-trivial = contains >=1 unusual form, or >=2 JSX expressions in >=2 syntactic contexts; distinct by hash(source, options)".into()
+        "modules decoded from proptest choice bytes by gen::grammar (statements, classes, functions, TS declarations, JSX incl. the legal-but-unusual forms) under random option sets; judged cases = parser-accepted, no visitor panic; passing requires diagnostics>=1 OR (JSX census of raw output AST = 0 AND no empty-symbol identifier AND printed output re-parses with JSX disabled AND - second engine - node's parser accepts the TS-erased output whenever it accepts the input with its JSX flattened into array literals). non-trivial = contains >=1 unusual form, or >=2 JSX expressions in >=2 syntactic contexts; distinct by hash(source, options)".into()
     }
     fn assumptions(&self) -> Vec<String> {
         vec![
             "swc parser/codegen are correct; inputs whose own print+reparse fails are discarded".into(),
+            "node's parser decides early errors; a case whose JSX-flattened, TS-erased input node rejects is discarded (own early error, or TS syntax the eraser does not cover)".into(),
             "driver reproduces the plugin entry: serde_json options, resolver, visitor under HANDLER, hygiene, fixer".into(),
         ]
     }
